@@ -382,6 +382,12 @@ type cliRun struct {
 	groups     []string
 	reqs       map[uint32]int // stream id -> tag, from the HEADERS observed
 	bad        []string
+
+	// the scripted server's flow-control ledger (C07): what it has granted and what it has been sent
+	connGranted, connSent int64
+	strGranted, strSent   map[uint32]int64
+	curInit               int64
+	curMaxFrame           int
 }
 
 const cliHandshakeFrames = 3 // SETTINGS, WINDOW_UPDATE, SETTINGS ACK
@@ -395,7 +401,9 @@ func clientTicks() []int64 {
 
 // startClientRun brings the connection up to the end of the handshake.
 func startClientRun(sc *cliScenario) *cliRun {
-	r := &cliRun{sc: sc, tags: map[int]*cliTag{}, reqs: map[uint32]int{}}
+	r := &cliRun{sc: sc, tags: map[int]*cliTag{}, reqs: map[uint32]int{}, connGranted: 65535, curInit: 65535, curMaxFrame: 16384,
+		strGranted: map[uint32]int64{}, strSent: map[uint32]int64{}}
+	r.ledgerSettings(sc.settings)
 	pc := fasthttputil.NewPipeConns()
 	r.cc = &cliConn{Conn: pc.Conn1()}
 	r.c2 = pc.Conn2()
@@ -450,6 +458,41 @@ func (r *cliRun) handshakeView() string {
 		inc = binary.BigEndian.Uint32(f1.payload)
 	}
 	return fmt.Sprintf("hs:%d:%s:%d:%d", f0.kind, hx(f0.payload), f1.kind, inc)
+}
+
+// ledgerSettings applies a SETTINGS frame the server sends to its own ledger.
+func (r *cliRun) ledgerSettings(kvs [][2]uint32) {
+	for _, kv := range kvs {
+		switch kv[0] {
+		case 4:
+			if kv[1] <= 1<<31-1 {
+				delta := int64(kv[1]) - r.curInit
+				for sid := range r.strGranted {
+					r.strGranted[sid] += delta
+				}
+				r.curInit = int64(kv[1])
+			}
+		case 5:
+			if kv[1] >= 16384 && kv[1] <= 1<<24-1 {
+				r.curMaxFrame = int(kv[1])
+			}
+		}
+	}
+}
+
+// ledgerData checks a DATA frame the client sent against the ledger.
+func (r *cliRun) ledgerData(sid uint32, n int) {
+	if n > r.curMaxFrame {
+		r.bad = append(r.bad, fmt.Sprintf("data-frame-%d-over-max-frame-size-%d", n, r.curMaxFrame))
+	}
+	r.connSent += int64(n)
+	r.strSent[sid] += int64(n)
+	if r.connSent > r.connGranted {
+		r.bad = append(r.bad, fmt.Sprintf("connection-window-exceeded-%d>%d", r.connSent, r.connGranted))
+	}
+	if g, ok := r.strGranted[sid]; !ok || r.strSent[sid] > g {
+		r.bad = append(r.bad, fmt.Sprintf("stream-%d-window-exceeded-%d>%d", sid, r.strSent[sid], g))
+	}
 }
 
 // peerConsumed is how many bytes of the client's the scripted server has read.
@@ -595,6 +638,7 @@ func (r *cliRun) report(ev *cliEvent, extra []string) string {
 		switch f.kind {
 		case 0:
 			direct = append(direct, fmt.Sprintf("D%d:%d:%s", f.sid, f.flags&1, proj(f.payload)))
+			r.ledgerData(f.sid, len(f.payload))
 			known := false
 			for _, id := range ev.order {
 				known = known || id == f.sid
@@ -607,6 +651,7 @@ func (r *cliRun) report(ev *cliEvent, extra []string) string {
 			}
 		case 1:
 			direct = append(direct, fmt.Sprintf("H%d:%d:%s", f.sid, f.flags&1, hx(f.payload)))
+			r.strGranted[f.sid] = r.curInit
 			r.checkRequestBlock(f)
 		case 3:
 			queued = append(queued, fmt.Sprintf("R%d:%d", f.sid, binary.BigEndian.Uint32(f.payload)))
@@ -725,11 +770,19 @@ func (r *cliRun) step(ev *cliEvent) string {
 		ev.q = int(tick(clientTicks(), http2.VerifTickCliInSent) - before)
 	case "F":
 		r.sent++
-		if ev.fr.kind == 'S' && ev.fr.flags&1 == 0 {
+		if ev.fr.kind == 'S' && ev.fr.flags&1 == 0 && ev.fr.sid == 0 {
 			for _, kv := range ev.fr.settings {
 				if kv[0] == 1 {
 					r.dec.SetAllowedMaxDynamicTableSize(kv[1])
 				}
+			}
+			r.ledgerSettings(ev.fr.settings)
+		}
+		if ev.fr.kind == 'W' {
+			if sid := ev.fr.sid & 0x7fffffff; sid == 0 {
+				r.connGranted += int64(ev.fr.inc & 0x7fffffff)
+			} else if _, ok := r.strGranted[sid]; ok {
+				r.strGranted[sid] += int64(ev.fr.inc & 0x7fffffff)
 			}
 		}
 		_, _ = r.c2.Write(ev.fr.wire())
